@@ -47,6 +47,11 @@ func buildWorld(cfg Config) *World {
 	}
 	w := NewWorld(cfg, sc.NActors)
 	sc.Setup(w)
+	// commit everything the set-up wrote directly into the deliver state, so that a crash/restart replica and an
+	// export see it as durable state
+	if w.Panicked == "" {
+		w.EndBlockAndBegin(5 * time.Second)
+	}
 	w.SetupPhase = false
 	return w
 }
@@ -108,6 +113,7 @@ type PropSpec struct {
 	Quick      Budget
 	Thorough   Budget
 	Essential  []string // probes that must all be non-zero in a run for it to count as non-trivial
+	EssentialAny [][]string // alternative: non-trivial if every probe of at least one list is non-zero (multi-scenario properties)
 	BatchProbe []string // probes that must be non-zero over the batch, else the batch is vacuous (exit 2)
 	Rule       string
 	Assume     []string
@@ -192,6 +198,20 @@ func RunOne(spec *PropSpec, runSeed uint64, maxEvents int, keepEvents bool) *Run
 	for _, p := range spec.Essential {
 		if w.Stats.Probes[p] == 0 {
 			out.Nontrivial = false
+		}
+	}
+	if len(spec.EssentialAny) > 0 {
+		out.Nontrivial = false
+		for _, alt := range spec.EssentialAny {
+			ok := true
+			for _, p := range alt {
+				if w.Stats.Probes[p] == 0 {
+					ok = false
+				}
+			}
+			if ok {
+				out.Nontrivial = true
+			}
 		}
 	}
 	if keepEvents || out.Violation != nil {
